@@ -285,7 +285,8 @@ def run(tier, seed):
     for th, form, par_ in itertools.product(sorted(EXACT), (0.0, 1.0), (-1, 1)):
         cases.append(("TAN-LATFIRST", th, scales[1], form, par_, "centre", crvals[1], (5, 4), "image"))
     # non-default LONPOLE/LATPOLE (the orientation of the native system is part of the mapping)
-    for proj, th, par_, ck, cv, sz, kind in itertools.product(projs, thetas[::2], (-1, 1), crpix_kinds[:2], crvals[:2], [(5, 4), (2, 3)], ("image", "description")):
+    # (zenithal projections only: for a cylindrical one these pole parameters have no valid solution)
+    for proj, th, par_, ck, cv, sz, kind in itertools.product([p_ for p_ in projs if p_ in ("TAN", "SIN")], thetas[::2], (-1, 1), crpix_kinds[:2], crvals[:2], [(5, 4), (2, 3)], ("image", "description")):
         cases.append((proj + "-POLE", th, scales[1], 0.0, par_, ck, cv, sz, kind))
     n = par.ncores() * 2
     par.pmap(case, [cases[i::n] for i in range(n)], rep)
